@@ -92,7 +92,7 @@ func init() {
 	}
 }
 
-var hostileInserts = []string{"1e\n", "1e+\n", "1E-\r\n", "\\\n", "\\\r\n", "\r", "\r\n", "\x00", "é", "\xff", "\"", "'", "/", "#", "\n", "\t", "{", "}", "(", "\\", "2e", "$", "@"}
+var hostileInserts = []string{"\xef\xbb\xbf", "1e\n", "1e+\n", "1E-\r\n", "\\\n", "\\\r\n", "\r", "\r\n", "\x00", "é", "\xff", "\"", "'", "/", "#", "\n", "\t", "{", "}", "(", "\\", "2e", "$", "@"}
 
 func genTokenSoup(t *rapid.T) string {
 	n := rapid.IntRange(1, 40).Draw(t, "ntok")
@@ -320,8 +320,16 @@ func genSrc(t *rapid.T) (string, string) {
 	}
 }
 
+// bytes an editor may put in front of a program without showing them: they are bytes of the source like any other
+// (columns count bytes), whatever the lexer makes of them
+var invisiblePrefixes = []string{"\xef\xbb\xbf", "\xef\xbb\xbf\xef\xbb\xbf", "\xef\xbb", "\xfe\xff", "\xff\xfe", "\xc2\xa0", "\xe2\x80\x8b", "\x00", "\v", "\f", "\r"}
+
 func genCase(t *rapid.T) Case {
 	s, k := genSrc(t)
+	if k != "big" && rapid.IntRange(0, 11).Draw(t, "prefix") == 0 {
+		s = rapid.SampledFrom(invisiblePrefixes).Draw(t, "pfx") + s
+		k += "+prefix"
+	}
 	return Case{Src: h.Str(s), Kind: k}
 }
 
@@ -329,6 +337,10 @@ func genCLICase(t *rapid.T) Case {
 	s, k := genSrc(t)
 	if k == "big" { // keep argv small
 		s = s[len(s)-2000:]
+	}
+	if rapid.IntRange(0, 11).Draw(t, "prefix") == 0 {
+		s = rapid.SampledFrom(invisiblePrefixes).Draw(t, "pfx") + s
+		k += "+prefix"
 	}
 	c := Case{Src: h.Str(s), Kind: k}
 	c.CLI = rapid.SampledFrom([]string{"file", "file", "two-files", "cmdline"}).Draw(t, "cli")
